@@ -1724,6 +1724,10 @@ func vfC16FFaultOracles(x *vfC16FWorld, m *vfC16FModel, op vfC16FOp, code int, p
 		}
 		ref := referenced[u]
 		switch {
+		case len(ref) > 0 && (!have[u.ID] || !names[filepath.Base(u.Loc)]) && failed == "FileGet" && code < 300 && strings.HasPrefix(ref[0], "msg:"):
+			// the failing call was a mere look-up and the publish was accepted: the message exists and lists the
+			// upload, so the link must have been made (seed C16-m5)
+			bad("C16:referenced-upload-collected-after-failed-lookup:"+site, fmt.Sprintf("upload #%d is used by %v and was removed by the next collection", u.N, ref))
 		case len(ref) > 0 && (!have[u.ID] || !names[filepath.Base(u.Loc)]):
 			note("referenced-upload-collected-after-fault:"+strings.SplitN(ref[0], ":", 2)[0]+":"+site, fmt.Sprintf("upload #%d is used by %v and was removed by the next collection", u.N, ref))
 		case len(ref) == 0 && have[u.ID]:
